@@ -154,12 +154,13 @@ KIND_LIST = {
     'n1': 'pws_constr(M)', 'ninf': 'pws_constr(I)', 'n2': 'cvx_constr(E)', 'sq': 'cvx_constr(S)',
     'ssq': 'cvx_constr(Q)', 'quad': 'cvx_constr(Q,matrix)', 'p3': 'ip_constr(G)', 'p52': 'ip_constr(G,5/2)',
     'pow': 'ip_constr(T)', 'gm': 'ip_constr(C)+bounds', 'gm12': 'ip_constr(C,beta=[1,2])+bounds', 'exp': 'other_constr(X)->exp_constr',
-    'ent': 'other_constr(P)+lin', 'kl': 'other_constr(KL)+lin',
+    'ent': 'other_constr(P)+lin', 'kl': 'other_constr(KL)+lin', 'xonly': 'other_constr(X) only',
+    'entonly': 'other_constr(P) only', 'klonly': 'other_constr(KL,P) only',
 }
 KINDS_LP = ['bnd', 'lin', 'eq', 'abs', 'n1', 'ninf']
 KINDS_SOC = ['n2', 'sq', 'ssq', 'quad']
 KINDS_IP = ['p3', 'p52', 'pow', 'gm']
-KINDS_EXP = ['exp', 'ent', 'kl']
+KINDS_EXP = ['exp', 'ent', 'kl', 'xonly', 'entonly', 'klonly']       # ..only: NO linear row / bound in the set
 KINDS = KINDS_LP + KINDS_SOC + KINDS_IP + KINDS_EXP
 
 SIZES = {'s': (np.array([0.25, -0.25]), 0.5), 'L': (np.array([0.0, 0.0]), 2.0),
@@ -205,6 +206,14 @@ def mkset(z, kind, size):
     if kind == 'exp':
         return [rso.exp((z[0] - c[0]) * (1.0 / r)) <= (z[1] - c[1]) * (1.0 / r) + 2.0,
                 z[1] <= float(c[1] + r), z[0] >= float(c[0] - r)]
+    if kind == 'xonly':         # exp(z_i - c_i) <= e^r , exp(c_i - z_i) <= e^r : a box written with exp-type rows only
+        return [rso.exp(z - c) <= float(np.exp(r)), rso.exp(c - z) <= float(np.exp(r))]
+    if kind == 'entonly':       # entropy-only: {z' >= 0 implied, entropy(z') >= 0.55}, z' affine image of z (bounded)
+        zp = (z - c) * (0.25 / r) + 0.5
+        return [rso.entropy(zp) >= 0.55]
+    if kind == 'klonly':
+        zp = (z - c) * (0.25 / r) + 0.5
+        return [rso.kldiv(zp, np.array([0.5, 0.5]), 0.05), rso.entropy(zp) >= 0.3]
     if kind == 'ent':
         zp = (z - c) * (0.25 / r) + 0.5
         return [rso.entropy(zp) >= 0.6, zp.sum() == 1.0]
